@@ -115,8 +115,13 @@ def instances(tier):
                 ([2, 2, 2, 2], 1, 1, 0, 'first', False), ([3, 3, 3], 2, 2, 1, 'last', False)]
     cfg += [([3, 3], 2, 2, 0, 'forked', False), ([2, 3], 1, 1, 0, 'forked', False)]
     for n, rho, m, ce, var, sf in cfg:
+        o = dict(G)
+        if var == 'forked':
+            # all LHS outcomes are explored: an identically singular least-squares system
+            # (repeated prefixes / suffixes) is a failure, not a non-generic input
+            o['zero_divisor_is_failure'] = True
         out.append({'func': 'h_recover', 'params': {'n': n, 'rho': rho, 'm': m, 'cap_extra': ce, 'variant': var,
-                                                    'sym_factor': sf}, 'opts': G})
+                                                    'sym_factor': sf}, 'opts': o})
     return out
 
 
